@@ -65,9 +65,56 @@ def build_store(family):
             w.do((1, 4), W.p_activate(ids[i]), user=owner(i))
         w.do((1, 4), W.p_revoke(ids[2]), user=owner(2))
         w.do((1, 4), W.p_revoke(ids[3], E.RevocationReasonCode.KEY_COMPROMISE), user=owner(3))
+    elif family == 'large':
+        # 330 objects created in bursts (30 per second), owners and policies interleaved: whatever
+        # the listing does internally (paging, limits, caches sized for small stores) shows here
+        for i in range(330):
+            user = 'bob' if i % 3 == 2 else 'alice'
+            _reg(w, W.pie_secret(bytes([i % 251]) * 8), c(names=['L%d' % i], policy='open' if i % 5 == 0 else None,
+                                                             groups=['gA'] if i % 7 == 0 else []), user, T0 + i // 30)
     elif family == 'empty':
         pass
     return w, pol
+
+
+def check_large(part):
+    w, pol = build_store('large')
+    try:
+        dump = w.dump()
+        key0 = W.db_key(dump)
+        objs = ref_store.objects(dump)
+        W.CLOCK.now = T0 + 100
+        for filters in [(), (('Object Type', OT.SECRET_DATA.value),), (('Name', 'L7'),), (('Name', 'L299'),),
+                        (('Object Group', 'gA'),), (('Initial Date', T0 + 3), ('Initial Date', T0 + 6)),
+                        (('Initial Date', T0 + 8),), (('Operation Policy Name', 'open'),)]:
+            for user, groups in REQUESTERS:
+                check_locate(w, objs, pol, filters, user, groups, (1, 4), part, 'large', False)
+                exp = expected(objs, pol, filters, user, groups)
+                full, _ = locate(w, filters, user, groups, (1, 4))
+                if full is None or set(full) != set(exp):
+                    continue       # reported by check_locate
+                for size in (64, 100, 256):
+                    acc, off = [], 0
+                    while off <= len(full) + size:
+                        page, pit = locate(w, filters, user, groups, (1, 4), off, size)
+                        part.count('locates')
+                        if not page:
+                            break
+                        acc += page
+                        off += size
+                    if acc != full:
+                        part.violation("paging|partition|large", "store 'large' (%d objects): pages of %d of "
+                                       "Locate(%s) by %s give %d identifiers, the full result has %d (first "
+                                       "difference at position %s)" % (
+                                           len(objs), size, filters, user, len(acc), len(full),
+                                           next((i for i, (a, b) in enumerate(zip(acc, full)) if a != b), '-')),
+                                       {'family': 'large', 'filters': [list(f) for f in filters], 'user': user,
+                                        'groups': groups, 'version': [1, 4]})
+        if W.db_key(w.dump()) != key0:
+            part.violation("locate-changes-store", "the store changed during Locate requests", {})
+        part.sample({'family': 'large', 'objects': len(objs)})
+    finally:
+        w.close()
 
 
 FILTERS = [
@@ -313,6 +360,11 @@ def _worker(task):
         out = part.as_dict()
         out['out'] = 0
         return out
+    if conjs == 'large':
+        check_large(part)
+        out = part.as_dict()
+        out['out'] = len(part.counters.pop('_out', set()))
+        return out
     w, pol = build_store(family)
     try:
         dump = w.dump()
@@ -341,6 +393,7 @@ def run(tier, seed):
     conjs = conjunctions(tier)
     versions = [(1, 4), (2, 0)]
     tasks = []
+    tasks.append(('large', 'large', tier, versions))
     for fam in FAMILIES:
         k = 16 if fam != 'empty' else 1
         cs = conjs if fam != 'empty' else conjs[:len(FILTERS) + 1]
@@ -382,6 +435,10 @@ def replay(doc):
     part = Part()
     if doc.get('noninterference'):
         noninterference(doc['family'], part, 'thorough')
+        v = part.violations
+        return bool(v), '\n'.join("%s: %s" % (k, t) for k, t, _ in v[:10]) or 'no violation'
+    if doc.get('family') == 'large':
+        check_large(part)
         v = part.violations
         return bool(v), '\n'.join("%s: %s" % (k, t) for k, t, _ in v[:10]) or 'no violation'
     w, pol = build_store(doc['family'])
